@@ -12,6 +12,7 @@ import (
 	"fmt"
 	"math/rand"
 	"path/filepath"
+	"regexp"
 	"sort"
 	"strconv"
 	"strings"
@@ -65,6 +66,18 @@ func resolve(name string, a []string) []string {
 		return []string{strconv.Itoa(k), model.H(d)}
 	case "trim":
 		return []string{model.H(strings.TrimSpace(u[0]))}
+	case "sstore": // sstring.Store(name)
+		return []string{strconv.Itoa(verifapi.SharedNameNumber(u[0]))}
+	case "sload": // sstring.Load(num); none where it panics (a number that is not an int counts as such)
+		n, err := strconv.ParseUint(a[0], 10, 62)
+		if err != nil {
+			return []string{"none"}
+		}
+		name, ok := verifapi.SharedName(int(n))
+		if !ok {
+			return []string{"none"}
+		}
+		return []string{model.H(name)}
 	case "gjson":
 		ok, k, s, _ := verifapi.KsGjsonGet(u[0], u[1])
 		if !ok {
@@ -210,7 +223,11 @@ func pretty(c string) string {
 				j++
 			}
 			sb.WriteByte(ch)
-			sb.WriteString(strconv.Quote(model.U(c[i+1 : j])))
+			if j-i > 600 {
+				sb.WriteString(fmt.Sprintf("%s...(%d bytes)", strconv.Quote(model.U(c[i+1 : i+81])), (j-i-1)/2))
+			} else {
+				sb.WriteString(strconv.Quote(model.U(c[i+1 : j])))
+			}
 			i = j
 			continue
 		}
@@ -584,12 +601,32 @@ type caseRec struct {
 	At      int        `json:"at"`
 }
 
+// quoteArg quotes one argument; a long one (a field value of a megabyte) is shown by its head and length.
+func quoteArg(a string) string {
+	if len(a) > 300 {
+		return fmt.Sprintf("%s...(%d bytes)", strconv.Quote(a[:40]), len(a))
+	}
+	return strconv.Quote(a)
+}
+
+var longHex = regexp.MustCompile(`[0-9a-f]{600,}`)
+
+// shorten abbreviates long hex runs (values of a megabyte inside a dump) in failure records.
+func shorten(s string) string {
+	if len(s) < 600 {
+		return s
+	}
+	return longHex.ReplaceAllStringFunc(s, func(h string) string {
+		return fmt.Sprintf("%s...(%d hex digits)", h[:40], len(h))
+	})
+}
+
 func quoteProg(p [][]string) []string {
 	out := make([]string, len(p))
 	for i, c := range p {
 		q := make([]string, len(c))
 		for j, a := range c {
-			q[j] = strconv.Quote(a)
+			q[j] = quoteArg(a)
 		}
 		out[i] = strings.Join(q, " ")
 	}
@@ -607,7 +644,7 @@ func (t *tester) runProgram(m *mdl, prog [][]string, label string) (nontrivial b
 	changed, readAfter := false, false
 	fail := func(kind, sig, what string, at int, impl, mod string) {
 		r.Fail(hx.Failure{Kind: kind, Signature: sig, What: what,
-			Case: map[string]interface{}{"program": quoteProg(prog[:at+1]), "label": label}, Impl: impl, Model: mod})
+			Case: map[string]interface{}{"program": quoteProg(prog[:at+1]), "label": label}, Impl: shorten(impl), Model: shorten(mod)})
 	}
 	for i, args := range prog {
 		if args[0] == "@sleep" {
@@ -1021,6 +1058,7 @@ func runC01(r *hx.Result, cfg hx.Config) {
 		"glob patterns of PDEL/KEYS whose literal prefix ends in 0xFF are excluded (C12-ff)",
 	}
 	rng := rand.New(rand.NewSource(cfg.Seed))
+	bigOK := prepareForBigLists()
 	drv, err := model.Start("ks")
 	if err != nil {
 		panic(err)
@@ -1088,9 +1126,16 @@ func runC01(r *hx.Result, cfg hx.Config) {
 		S("@sleep", "1350"),
 		S("GET", "t", "a", "WITHFIELDS"), S("TTL", "t", "a"), S("GET", "t", "b"), S("TTL", "t", "b"), S("GET", "t", "c"), S("TTL", "t", "c"), S("TTL", "t", "d"), S("GET", "v", "e", "WITHFIELDS"), S("TTL", "v", "e"),
 		S("SCAN", "t", "IDS"), S("KEYS", "*")})
+	if bigOK {
+		corpus = append(corpus, bigValueProgram())
+	}
 	for i, p := range corpus {
+		t0 := time.Now()
 		nt := t.runProgram(m, p, fmt.Sprintf("corpus-%d", i))
 		r.Count("corpus:"+strings.Join(quoteProg(p), ";"), nt)
+		if bigOK && i == len(corpus)-1 {
+			r.Extra["big_value_program_seconds"] = fmt.Sprintf("%.1f", time.Since(t0).Seconds())
+		}
 	}
 
 	for i := 0; i < nprog; i++ {
@@ -1138,6 +1183,7 @@ func runC01(r *hx.Result, cfg hx.Config) {
 
 	fieldListCheck(r, m, rng, nfl)
 	headCheck(r, m, rng, nhead)
+	fieldBinCheck(r, m, rng, cfg, bigOK)
 
 	r.TracesImpl = r.Evaluations
 	r.Extra["oracle_lookups_resolved"] = m.nOrc
